@@ -135,10 +135,14 @@ package workers
 //@           (!Gfailed ==> GMsetup["success"] == old(GMsetup["success"]) + 1 && GMsetup["fail"] == old(GMsetup["fail"]))
 //@   ensures [done] Gphase == 4 && wfT(s.t)
 //@
+//@ // G2drops: exact number of drops reported so far (no wrap-around, unlike the uint64 field it mirrors)
+//@ ghost var G2drops int
 //@ func (*ActiveScenario).RecordDroppedIteration
 //@   props C01 C02 C16
 //@   requires wfScenario(s) && tracks(s.progress)
-//@   modifies GMiter, s.progress.successfulIterationDurations.running, s.progress.failedIterationDurations.running, s.progress.droppedIterationCount,
+//@   ghost at exit : G2drops = G2drops + 1
+//@   ensures [reported-once] G2drops == old(G2drops) + 1
+//@   modifies G2drops, GMiter, s.progress.successfulIterationDurations.running, s.progress.failedIterationDurations.running, s.progress.droppedIterationCount,
 //@            NrecS, NrecF, NrecD, SumS, SumF, MinS, MinF, MaxS, MaxF
 //@   ensures [counted-once] NrecD == (old(NrecD) + 1) % 18446744073709551616 && NrecS == old(NrecS) && NrecF == old(NrecF) && tracks(s.progress)
 //@   ensures [exported] s.m.IterationMetricsEnabled ==> GMiter["dropped"] == old(GMiter["dropped"]) + 1
@@ -208,10 +212,10 @@ package workers
 //@ func (*TriggerPool).stop
 //@   props C02 C05
 //@   requires wfTriggerPool(p)
-//@   modifies p.stopWorkers, p.jobsToExecute.num, GMiter, p.manager.activeScenario.progress.successfulIterationDurations.running, p.manager.activeScenario.progress.failedIterationDurations.running,
+//@   modifies G2drops, p.stopWorkers, p.jobsToExecute.num, GMiter, p.manager.activeScenario.progress.successfulIterationDurations.running, p.manager.activeScenario.progress.failedIterationDurations.running,
 //@            p.manager.activeScenario.progress.droppedIterationCount, NrecS, NrecF, NrecD, SumS, SumF, MinS, MinF, MaxS, MaxF
 //@   ensures [stopped] p.stopWorkers && p.jobsToExecute.num == 0
-//@   ensures [pending-dropped] (limitReached(p.manager) ? NrecD == old(NrecD) : NrecD == (old(NrecD) + max(0, old(p.jobsToExecute.num))) % 18446744073709551616) && NrecS == old(NrecS) && NrecF == old(NrecF)
+//@   ensures [pending-dropped] (limitReached(p.manager) ? G2drops == old(G2drops) : G2drops == old(G2drops) + max(0, old(p.jobsToExecute.num))) && NrecS == old(NrecS) && NrecF == old(NrecF)
 //@
 //@ func (*TriggerPool).maxIterationsReached
 //@   props C02 C03 C05
@@ -232,13 +236,13 @@ package workers
 //@ func (*TriggerPool).run
 //@   props C03 C04 C05 C07 C02
 //@   thread-root
-//@   modifies allbut(NrecD)
+//@   modifies allbut(G2drops)
 //@   requires wfManager(p.manager) && wfState(iterationState) && startWg != nil && p.jobsAvailableCond != nil && p.workerCtxCancel != nil
 //@   ghost at entry : Gok = false ; Greset = false
 //@   ghost after call (*PoolManager).NextIteration : Gid = ret0 ; Gok = (ret1 == nil)
 //@   ghost before call (*T).Reset : assert [reset-after-issue] Gok && !Greset ; assert [reset-id] arg1 == formatUint(Gid, 10) ; assert [own-handle] arg0 == iterationState.t ; Greset = true
 //@   ghost before call (*ActiveScenario).Run : assert [run-after-reset] Gok && Greset ; assert [own-state] arg1 == iterationState ; Gok = false ; Greset = false ; Gruns = Gruns + 1
-//@   loop 0 invariant !Gok && !Greset && wfManager(p.manager) && wfState(iterationState) && NrecD == old(NrecD)
+//@   loop 0 invariant !Gok && !Greset && wfManager(p.manager) && wfState(iterationState) && G2drops == old(G2drops)
 //@   ensures [consumed] !Gok
 //@
 //@ func (*ContinuousPool).startWorker
@@ -321,9 +325,9 @@ package workers
 //@   requires wfTriggerPool(p) && ctx != nil
 //@   ghost after call invoke:Err : G2cancelled = (ret0 != nil)
 //@   ghost before call (*TriggerPool).sendJobsForExecution : assert [unchanged] arg1 == numJobs && arg0 == p
-//@   ensures [every-live-tick-supersedes] (!G2cancelled && (numJobs <= 0 || !old(p.stopWorkers))) ==> (p.jobsToExecute.num == numJobs && (limitReached(p.manager) ? NrecD == old(NrecD) : NrecD == (old(NrecD) + max(0, old(p.jobsToExecute.num))) % 18446744073709551616))
-//@   ensures [cancelled-or-stopped-tick-ignored] (G2cancelled || (numJobs > 0 && old(p.stopWorkers))) ==> (p.jobsToExecute.num == old(p.jobsToExecute.num) && NrecD == old(NrecD))
-//@   modifies G2cancelled, p.jobsToExecute.num, GMiter, p.manager.activeScenario.progress.successfulIterationDurations.running, p.manager.activeScenario.progress.failedIterationDurations.running,
+//@   ensures [every-live-tick-supersedes] (!G2cancelled && (numJobs <= 0 || !old(p.stopWorkers))) ==> (p.jobsToExecute.num == numJobs && (limitReached(p.manager) ? G2drops == old(G2drops) : G2drops == old(G2drops) + max(0, old(p.jobsToExecute.num))))
+//@   ensures [cancelled-or-stopped-tick-ignored] (G2cancelled || (numJobs > 0 && old(p.stopWorkers))) ==> (p.jobsToExecute.num == old(p.jobsToExecute.num) && G2drops == old(G2drops))
+//@   modifies G2drops, G2cancelled, p.jobsToExecute.num, GMiter, p.manager.activeScenario.progress.successfulIterationDurations.running, p.manager.activeScenario.progress.failedIterationDurations.running,
 //@            p.manager.activeScenario.progress.droppedIterationCount, NrecS, NrecF, NrecD, SumS, SumF, MinS, MinF, MaxS, MaxF
 //@   ensures [wf] wfTriggerPool(p)
 //@
@@ -334,13 +338,14 @@ package workers
 //@   requires wfTriggerPool(p)
 //@   assert before call (*jobCounter).set : [new-count-installed-under-the-condition-lock] heldLocker(p.jobsAvailableCond.L)
 //@   assert before call (*Cond).Broadcast : [workers-woken-under-the-condition-lock] heldLocker(p.jobsAvailableCond.L)
-//@   modifies p.jobsToExecute.num, GMiter, p.manager.activeScenario.progress.successfulIterationDurations.running, p.manager.activeScenario.progress.failedIterationDurations.running,
+//@   modifies G2drops, p.jobsToExecute.num, GMiter, p.manager.activeScenario.progress.successfulIterationDurations.running, p.manager.activeScenario.progress.failedIterationDurations.running,
 //@            p.manager.activeScenario.progress.droppedIterationCount, NrecS, NrecF, NrecD, SumS, SumF, MinS, MinF, MaxS, MaxF
-//@   loop 0 invariant (numJobs <= 0 || !old(p.stopWorkers)) && wfTriggerPool(p) && 0 <= rangeiter && rangeiter < jobsDiscarded && p.manager == old(p.manager) && p.manager.activeScenario == old(p.manager.activeScenario) && p.manager.activeScenario.progress == old(p.manager.activeScenario.progress) && NrecD == (old(NrecD) + rangeiter) % 18446744073709551616 && NrecS == old(NrecS) && NrecF == old(NrecF) && p.jobsToExecute.num == numJobs
-//@   ensures [replaced] wfTriggerPool(p) && ((numJobs <= 0 || !old(p.stopWorkers)) ==> p.jobsToExecute.num == numJobs)
-//@   ensures [superseded-dropped] NrecS == old(NrecS) && NrecF == old(NrecF) && ((numJobs <= 0 || !old(p.stopWorkers)) && !limitReached(p.manager) ==> NrecD == (old(NrecD) + max(0, old(p.jobsToExecute.num))) % 18446744073709551616)
-//@   ensures [refused-once-stopped] (numJobs > 0 && old(p.stopWorkers)) ==> (p.jobsToExecute.num == old(p.jobsToExecute.num) && NrecD == old(NrecD))
-//@   ensures [limit-discards-are-silent] limitReached(p.manager) ==> NrecD == old(NrecD)
+//@   loop 0 invariant (numJobs <= 0 || !old(p.stopWorkers)) && wfTriggerPool(p) && 0 <= rangeiter && rangeiter < jobsDiscarded && p.manager == old(p.manager) && p.manager.activeScenario == old(p.manager.activeScenario) && p.manager.activeScenario.progress == old(p.manager.activeScenario.progress) && G2drops == old(G2drops) + rangeiter && NrecS == old(NrecS) && NrecF == old(NrecF) && p.jobsToExecute.num == numJobs
+//@   ensures [wf] wfTriggerPool(p)
+//@   ensures [replaced] (numJobs <= 0 || !old(p.stopWorkers)) ==> p.jobsToExecute.num == numJobs
+//@   ensures [superseded-dropped] NrecS == old(NrecS) && NrecF == old(NrecF) && ((numJobs <= 0 || !old(p.stopWorkers)) && !limitReached(p.manager) ==> G2drops == old(G2drops) + max(0, old(p.jobsToExecute.num)))
+//@   ensures [refused-once-stopped] (numJobs > 0 && old(p.stopWorkers)) ==> (p.jobsToExecute.num == old(p.jobsToExecute.num) && G2drops == old(G2drops))
+//@   ensures [limit-discards-are-silent] limitReached(p.manager) ==> G2drops == old(G2drops)
 //@
 //@ // ---- C02 under interleaving (variant @conc): a tick races with the shutdown path. G2pool is the pool under
 //@ // discussion; the environment (fnspec poolEnv) is every other thread of that pool: workers take pending requests
@@ -393,7 +398,7 @@ package workers
 //@   trusted the verified base contract shows that recording a drop touches only the statistics and the metrics, never the pool; under interference the pool changes only as poolEnv allows
 //@   requires G2pool != nil && s != nil
 //@   modifies GMiter, s.progress.successfulIterationDurations.running, s.progress.failedIterationDurations.running, s.progress.droppedIterationCount,
-//@            NrecS, NrecF, NrecD, SumS, SumF, MinS, MinF, MaxS, MaxF, G2pool.jobsToExecute.num, G2pool.stopWorkers, G2stopDone
+//@            NrecS, NrecF, NrecD, SumS, SumF, MinS, MinF, MaxS, MaxF, G2drops, G2pool.jobsToExecute.num, G2pool.stopWorkers, G2stopDone
 //@   ensures [env] (old(G2stopDone) ==> G2stopDone) && (old(G2pool.stopWorkers) ==> G2pool.stopWorkers) && (G2stopDone ==> G2pool.stopWorkers)
 //@   ensures [env-count] G2pool.jobsToExecute.num <= max(old(G2pool.jobsToExecute.num), 0) && ((G2stopDone && !old(G2stopDone)) ==> G2pool.jobsToExecute.num <= 0)
 //@
@@ -402,7 +407,7 @@ package workers
 //@   interference poolEnv(G2pool)
 //@   requires p != nil && p == G2pool && p.jobsAvailableCond != nil && (G2stopDone ==> p.stopWorkers) && stoppedMeansEmpty(p) && p.manager != nil && p.manager.activeScenario != nil
 //@   modifies GMiter, p.manager.activeScenario.progress.successfulIterationDurations.running, p.manager.activeScenario.progress.failedIterationDurations.running,
-//@            p.manager.activeScenario.progress.droppedIterationCount, NrecS, NrecF, NrecD, SumS, SumF, MinS, MinF, MaxS, MaxF,
+//@            p.manager.activeScenario.progress.droppedIterationCount, NrecS, NrecF, NrecD, SumS, SumF, MinS, MinF, MaxS, MaxF, G2drops,
 //@            p.jobsToExecute.num, p.stopWorkers, G2stopDone, G2atSwap
 //@   loop 0 invariant (G2stopDone ==> p.stopWorkers) && stoppedMeansEmpty(p) && p == G2pool && p.manager != nil && p.manager.activeScenario != nil
 //@   ensures [no-request-installed-after-the-drain] stoppedMeansEmpty(p) && (G2stopDone ==> p.stopWorkers)
@@ -412,6 +417,6 @@ package workers
 //@   interference poolEnv(G2pool)
 //@   requires p != nil && p == G2pool && ctx != nil && p.jobsAvailableCond != nil && (G2stopDone ==> p.stopWorkers) && stoppedMeansEmpty(p) && p.manager != nil && p.manager.activeScenario != nil
 //@   modifies GMiter, p.manager.activeScenario.progress.successfulIterationDurations.running, p.manager.activeScenario.progress.failedIterationDurations.running,
-//@            p.manager.activeScenario.progress.droppedIterationCount, NrecS, NrecF, NrecD, SumS, SumF, MinS, MinF, MaxS, MaxF,
+//@            p.manager.activeScenario.progress.droppedIterationCount, NrecS, NrecF, NrecD, SumS, SumF, MinS, MinF, MaxS, MaxF, G2drops,
 //@            p.jobsToExecute.num, p.stopWorkers, G2stopDone, G2atSwap
 //@   ensures [no-request-installed-after-the-drain] stoppedMeansEmpty(p)
